@@ -20,15 +20,18 @@ LET = "abcdefgh"
 
 # ====================================================================== part B: histories
 def gen_body(rng, names, idx, depth):
-    """a term over the field names of one literal; mostly refers to lower-indexed names"""
+    """a term over the field names of one literal.  References go to lower-numbered names (in every
+    literal, so that merged records are mostly acyclic as well), except for one in 16."""
+    def ref():
+        lower = [n for n in names if n < idx]
+        if rng.chance(1, 16):
+            return ("var", rng.choice(names))
+        if lower:
+            return ("var", rng.choice(lower))
+        return ("num", rng.range(-3, 6))
     c = rng.below(10)
     if depth <= 0 or c < 2:
-        if names and rng.chance(3, 5):
-            lower = [n for n in names if n < idx]
-            if lower and rng.chance(5, 6):
-                return ("var", rng.choice(lower))
-            return ("var", rng.choice(names))
-        return ("num", rng.range(-3, 6))
+        return ref() if rng.chance(2, 3) else ("num", rng.range(-3, 6))
     if c < 5:
         return ("add", gen_body(rng, names, idx, depth - 1), gen_body(rng, names, idx, depth - 1))
     if c < 7:
@@ -36,7 +39,7 @@ def gen_body(rng, names, idx, depth):
     if c < 9:
         return ("ifle", gen_body(rng, names, idx, depth - 1), gen_body(rng, names, idx, depth - 1),
                 gen_body(rng, names, idx, depth - 1), gen_body(rng, names, idx, depth - 1))
-    return ("var", rng.choice(names)) if names else ("num", 1)
+    return ref()
 
 
 def gen_prio(rng):
@@ -50,7 +53,7 @@ def gen_literal(rng, pool):
         names = rng.shuffle(names)
     fields = []
     for n in names:
-        if rng.chance(1, 8):
+        if rng.chance(1, 12):
             body = None
         else:
             body = gen_body(rng, names, n, rng.range(0, 3))
@@ -98,7 +101,8 @@ def history_sexp(steps):
                                             for (k, p, b) in s[1]))
         else:
             out.append("(merge %d %d)" % (s[1], s[2]))
-    return "(" + " ".join(out) + ")"
+    names = set(k for s in steps if s[0] == "lit" for (k, p, b) in s[1])
+    return "(%d " % (len(names) + 2) + " ".join(out) + ")"
 
 
 def tm_nickel(t):
